@@ -1009,8 +1009,38 @@ class Interp:
         if not broke and st.orelse:
             self.exec_block(st.orelse, fr)
 
+    def live_iter(self, v):
+        """Iteration as CPython performs it on a container that the loop body may change: a list is walked by index over its
+        *current* contents; a dict / set that changes size, or a deque that is mutated, raises RuntimeError at the next step."""
+        if isinstance(v, Seq) and v.kind == "list" and not v.has_seg() and self.uover(v, "__iter__") is None:
+            i = 0
+            while i < len(v.items):
+                x = v.items[i]
+                i += 1
+                yield x
+            return
+        items = self.iterate(v)
+        if isinstance(v, (DictV, SetV)) and not isinstance(v, LiveDictV):
+            size = (lambda: len(v.pairs)) if isinstance(v, DictV) else (lambda: len(v.items))
+            n0 = size()
+            for x in items:
+                if size() != n0:
+                    raise Raised(self.w.B.mkexc("RuntimeError", ("dictionary" if isinstance(v, DictV) else "Set") + " changed size during iteration"))
+                yield x
+            if size() != n0:       # the check is made at every step, the one that would end the iteration included
+                raise Raised(self.w.B.mkexc("RuntimeError", ("dictionary" if isinstance(v, DictV) else "Set") + " changed size during iteration"))
+            return
+        if isinstance(v, Seq) and v.kind == "deque":
+            snap = list(v.items)
+            for x in items:
+                if len(v.items) != len(snap) or any(a is not b for a, b in zip(v.items, snap)):
+                    raise Raised(self.w.B.mkexc("RuntimeError", "deque mutated during iteration"))
+                yield x
+            return
+        yield from items
+
     def st_For(self, st, fr):
-        it = self.iterate(self.ev(st.iter, fr))
+        it = self.live_iter(self.ev(st.iter, fr))
         broke = False
         for v in it:
             self.assign(st.target, v, fr)
@@ -1946,7 +1976,7 @@ class Interp:
                         if all(self.truth(self.ev(c, cfr)) for c in g.ifs):
                             emit(cfr, None)
                 return
-            for x in self.iterate(src):
+            for x in self.live_iter(src):
                 self.assign(g.target, x, cfr)
                 if all(self.truth(self.ev(c, cfr)) for c in g.ifs):
                     rec(i + 1)
